@@ -6,5 +6,6 @@ CONSTANTS
 INVARIANT InvWrites
 INVARIANT InvPointer
 INVARIANT InvInstance
+INVARIANT InvCtxFuncs
 INVARIANT InvOk
 CHECK_DEADLOCK FALSE
